@@ -513,6 +513,7 @@ class Input(object):
         if self.script_type == 'coinbase':
             self.valid = True
             return True
+        self.valid = False
         if not self.signatures:
             _logger.info("No signatures found for transaction input %d" % self.index_n)
             return False
